@@ -61,6 +61,15 @@ def confirm(d):
         pkgs = sorted({"./" + os.path.dirname(f) if os.path.dirname(f) else "." for f in files.split() if f.endswith(".go")})
         rc2, out2 = sh("go test -vet=off -count=1 -timeout 20m " + " ".join(pkgs), wt, timeout=3000)
         fails = re.findall(r"^--- FAIL: (\S+)", out2, re.M)
+        # load-sensitive tests: re-run the failed top-level tests alone (twice); passing alone = flaky
+        tops = sorted({f.split("/")[0] for f in fails})
+        if tops and len(tops) <= 8:
+            for _ in range(2):
+                rc3, out3 = sh("go test -vet=off -count=1 -timeout 20m -run '^(" + "|".join(tops) + ")$' " + " ".join(pkgs), wt)
+                if rc3 == 0:
+                    res["rerun_of_failed_passed"] = tops
+                    fails, rc2 = [], 0
+                    break
         flaky_only = bool(fails) and set(fails) <= {"TestRuntimeStability_SlowRefreshHandler"}
         res["existing_tests"] = {"pkgs": pkgs, "rc": rc2, "failed": fails, "tail": out2[-500:]}
         res["confirmed"] = bool(rc0 == 0 and res["patch_applies"] and rc1 != 0 and (rc2 == 0 or flaky_only))
